@@ -19,9 +19,9 @@
    check_record_boundaries (non-empty text, first record at 0, strictly increasing starts, last
    record non-empty): both ReferenceDocument::construct and CompressedDocument::construct
    refuse everything else (C19_invalid_divisions_refused_alike). *)
-From Coq Require Import Arith NArith List Bool.
+From Coq Require Import Arith NArith List Bool Sorted.
 From Blue Require Import Scrunch.ModelBits Scrunch.Model Scrunch.ModelWT Scrunch.ProofsBits
-  Scrunch.ProofsSorted Scrunch.ProofsSuffix Scrunch.ProofsSearch Scrunch.ProofsSigma
+  Scrunch.ProofsSorted Scrunch.ProofsSuffix Scrunch.ProofsIAP Scrunch.ProofsSearch Scrunch.ProofsSigma
   Scrunch.ProofsDoc Scrunch.ProofsSampled Scrunch.ProofsCompressed Scrunch.ProofsWT1 Scrunch.ProofsWT2
   Scrunch.ProofsWT3 Scrunch.ProofsWT4.
 Import ListNotations.
@@ -82,6 +82,27 @@ Proof. exact invalid_refused. Qed.
 
 Theorem C19_empty_text_has_no_valid_division : forall rb, check_record_boundaries [] rb = false.
 Proof. exact empty_text_refused. Qed.
+
+(* The specification is the plain scan: `occurrences` lists, in ascending order, exactly the
+   positions at which the needle is read off the text; `spec_record_of` is the record whose
+   start is the last one not after the offset. *)
+Theorem C19_specification_is_the_plain_scan : forall text needle,
+  StronglySorted lt (occurrences text needle) /\
+  forall p, In p (occurrences text needle) <->
+            p < length text /\ firstn (length needle) (skipn p text) = needle.
+Proof. intros text needle. exact (conj (occurrences_ascending text needle) (occurrences_spec text needle)). Qed.
+
+Theorem C19_specification_record_of_offset : forall n rb off, valid_boundaries n rb -> off < n ->
+  let r := spec_record_of rb off in
+  r < length rb /\ nth r rb 0 <= off /\ (forall r', r < r' -> r' < length rb -> off < nth r' rb 0).
+Proof. exact spec_record_of_spec. Qed.
+
+(* lib.rs inverse_and_psi_u32 (one pass, sentinel-initialised isa, uninitialised psi) never reads
+   an unwritten slot and computes the inverse permutation and psi[i] = isa[sa[i] + 1 (mod len)],
+   for every permutation. *)
+Theorem C19_inverse_and_psi_one_pass : forall sa, NoDup sa -> Forall (fun v => v < length sa) sa ->
+  0 < length sa -> inverse_and_psi sa = Ok (inverse sa, psi_of sa (inverse sa)).
+Proof. exact inverse_and_psi_ok. Qed.
 
 (* SA-IS by interface: a sorted permutation of the suffixes is unique, so any correct suffix
    sorter computes the array the theorems above are about. *)
